@@ -320,6 +320,15 @@ class TagList(UserList[TagNode]):
 
         return TagList(*item, self)
 
+    def __iadd__(self, item: Iterable[TagChild]) -> TagList:
+        """
+        Extend the children in place; like `+` and `.extend()`, the items are normalized
+        (a `str` is one child and is not split into characters).
+        """
+
+        self.extend(item)
+        return self
+
     def tagify(self) -> "TagList":
         """
         Convert any tagifiable children to Tag/TagList objects.
